@@ -1060,6 +1060,31 @@ func c38Run(rt *rapid.T, st *vs.S, maxTrunk, maxActions int) {
 				m.logf("%d setCanonical skipped (no candidate)", a)
 				continue
 			}
+			// Bias towards what forkchoiceUpdated is mostly used for when it is not a plain
+			// extension: switching to a stored block of another fork (1/3 any such block,
+			// 1/3 the stored tip of such a fork, 1/3 any candidate incl. ancestors of the head).
+			var side, sideTips []*c38Node
+			knownParent := map[*c38Node]bool{}
+			for _, n := range cands {
+				knownParent[n.parent] = true
+			}
+			for _, n := range cands {
+				if n.num() < uint64(len(old)) && old[n.num()] == n {
+					continue
+				}
+				side = append(side, n)
+				if !knownParent[n] {
+					sideTips = append(sideTips, n)
+				}
+			}
+			if len(side) > 0 {
+				switch rapid.IntRange(0, 2).Draw(rt, "targetKind") {
+				case 1:
+					cands = side
+				case 2:
+					cands = sideTips
+				}
+			}
 			n := cands[rapid.IntRange(0, len(cands)-1).Draw(rt, "target")]
 			_, err := m.bc.SetCanonical(n.block)
 			m.logf("%d SetCanonical(%s) -> %v", a, m.name(n), err)
